@@ -280,6 +280,26 @@ def xopP : P XOp := do
   | 8 => do let p ← optOf nat; let k ← optOf nat; let b ← optOf bool; pure (.parfile p k b)
   | _ => failure
 
+/-- events of `CacheConf.YOp`: codes 0-8 as `xopP`; 9 = a served object's own `set_interpolation_mode` (molecule, mode),
+    10 = `GlobalCache()['xsec_interpolation']` written directly (`optOf nat`), 11 = `load_opacity(opacity_path = directory p,
+    molecule_filter = [m])` -/
+def yopP : P YOp := do
+  let c ← nat
+  match c with
+  | 0 => do let m ← str; pure (.x (.base (.get m)))
+  | 1 => do let p ← nat; pure (.x (.base (.setPath p)))
+  | 2 => do let k ← nat; pure (.x (.base (.setInterp k)))
+  | 3 => do let b ← bool; pure (.x (.base (.setMem b)))
+  | 4 => pure (.x (.base .clear))
+  | 5 => do let m ← str; let k ← nat; pure (.x (.base (.add m k)))
+  | 6 => pure (.x .unsetInterp)
+  | 7 => pure (.x .unsetPath)
+  | 8 => do let p ← optOf nat; let k ← optOf nat; let b ← optOf bool; pure (.x (.parfile p k b))
+  | 9 => do let m ← str; let k ← nat; pure (.objMode m k)
+  | 10 => do let k ← optOf nat; pure (.gcInterp k)
+  | 11 => do let p ← nat; let m ← str; pure (.loadOther p m)
+  | _ => failure
+
 def fResp : Resp → String
   | .served o =>
     let im := match o.inMem with | none => "0" | some false => "1" | some true => "2"
@@ -289,35 +309,35 @@ def fResp : Resp → String
   | .notADir => "3"
 
 /-- responses with, after each step, the number of loads so far and the keys of the dictionary -/
-def traceOut (fs : List Dir) : CSt → List XOp → List String
+def traceOut (fs : List Dir) : CSt → List YOp → List String
   | _, [] => []
   | s, op :: ops =>
-    let r := stepX fs s op
+    let r := stepY fs s op
     s!"{fResp r.2} {r.1.log.length} {fList fS (r.1.dict.map (·.1))}" :: traceOut fs r.1 ops
 
-/-- `c14.cache fs ops` → per step: response, #loads, dict keys; then the load log (`CacheConf.stepX`: the cache's own
-    operations are `CacheSM.step`) -/
+/-- `c14.cache fs ops` → per step: response, #loads, dict keys; then the load log (`CacheConf.stepY`: configuration events are `stepX`, the
+    cache's own operations `CacheSM.step`) -/
 def cacheOp (args : List String) : Option String :=
   run (do
     let fs ← listOf dirP
-    let ops ← listOf xopP
-    let fin := CacheSM.runX fs CacheSM.init ops
+    let ops ← listOf yopP
+    let fin := CacheSM.runY fs CacheSM.init ops
     let steps := traceOut fs CacheSM.init ops
     pure s!"{fList id steps} {fList (fun (e : String × Nat) => s!"{fS e.1} {e.2}") fin.log}") args
 
 /-- as `traceOut`, on the k-table cache (`stepK`) -/
-def traceOutK (fs : List Dir) : CSt → List XOp → List String
+def traceOutK (fs : List Dir) : CSt → List YOp → List String
   | _, [] => []
   | s, op :: ops =>
-    let r := stepXK fs s op
+    let r := stepYK fs s op
     s!"{fResp r.2} {r.1.log.length} {fList fS (r.1.dict.map (·.1))}" :: traceOutK fs r.1 ops
 
-/-- `c14.kcache fs ops`: a history of the k-table cache (`CacheConf.stepXK`; the cache's own operations are `CacheSM.stepK`) -/
+/-- `c14.kcache fs ops`: a history of the k-table cache (`CacheConf.stepYK` over `stepXK`; the cache's own operations are `CacheSM.stepK`) -/
 def kcacheOp (args : List String) : Option String :=
   run (do
     let fs ← listOf dirP
-    let ops ← listOf xopP
-    let fin := CacheSM.runXK fs CacheSM.init ops
+    let ops ← listOf yopP
+    let fin := CacheSM.runYK fs CacheSM.init ops
     let steps := traceOutK fs CacheSM.init ops
     pure s!"{fList id steps} {fList (fun (e : String × Nat) => s!"{fS e.1} {e.2}") fin.log}") args
 
